@@ -23,7 +23,7 @@ from hpstatic.interp import Interp, expr_term
 from hpstatic.loader import AnalysisError
 from hpstatic.poly import Canon, I_ATOM
 from hpstatic.terms import (sym, intern, show, subterms, calls_in, TRUE, FALSE,
-                            NONE, atoms_of, kw)
+                            NONE, atoms_of, kw, num)
 
 MUTATION_TARGETS = {'holopy/core/process/fourier.py': ['fft', 'ifft', 'transform_metadata', 'ft_coord', 'ift_coord'], 'holopy/propagation/convolution_propagation.py': ['propagate', 'trans_func']}
 
@@ -93,7 +93,9 @@ def run(check, prog):
     check.trusted += ['numpy.fft inverse pairs', 'xarray elementwise arithmetic']
     canon = Canon()
     clause_A(check, prog)
+    clause_A2(check, prog)
     clause_B(check, prog)
+    clause_B2(check, prog, canon)
     clause_C(check, prog)
     clause_D(check, prog, canon)
 
@@ -102,12 +104,15 @@ def configs(prog, fname, isarray):
     """Return dict (is1d, shift) -> op chain for fft / ifft."""
     out = {}
     q = FOURIER + '.' + fname
-    for is1d in (True, False):
+    import operator
+    OPS = {'==': operator.eq, '!=': operator.ne, '<': operator.lt, '<=': operator.le,
+           '>': operator.gt, '>=': operator.ge}
+    for is1d in (1, 2, 3):          # the number of dimensions of the input
         for shift in (True, False):
             def decide(t, is1d=is1d, shift=shift):
-                if t[0] == 'cmp' and t[1] == '==' and t[2][0] == 'attr' and \
-                        t[2][2] == 'ndim':
-                    return is1d
+                if t[0] == 'cmp' and t[1] in OPS and t[2][0] == 'attr' and \
+                        t[2][2] == 'ndim' and t[3][0] == 'num':
+                    return OPS[t[1]](is1d, t[3][1])
                 if t == sym('shift'):
                     return shift
                 if t[0] == 'call' and t[1] == 'isinstance':
@@ -162,13 +167,14 @@ def clause_A(check, prog):
                 raise
             continue
         for cfg in sorted(f):
-            is1d, shift = cfg
+            ndim, shift = cfg
+            is1d = ndim == 1
             if not isarray and not is1d:
                 continue    # fft needs .dims for >= 2-D input: xarray only
             fc, fflag = f[cfg]
             gc, gflag = g[cfg]
-            construct = 'fft/ifft %s ndim%s1 shift=%s' % (
-                'DataArray' if isarray else 'ndarray', '==' if is1d else '!=', shift)
+            construct = 'fft/ifft %s ndim=%d shift=%s' % (
+                'DataArray' if isarray else 'ndarray', ndim, shift)
             floc = prog.loc(FOURIER, prog.func(FOURIER + '.ifft'))
             # fc outermost-first [opN..op1]; inverse applies inv(opN) first:
             # ifft chain innermost-first must be inv(opN), ..., inv(op1)
@@ -219,6 +225,103 @@ def clause_B(check, prog):
             check.note('coordinate transform reads', construct)
 
 
+def clause_B2(check, prog, canon):
+    """Spacing round trip of the coordinate transforms: a uniformly spaced
+    coordinate with spacing s and n points comes back with spacing s and n
+    points (linspace(a, b, n) has spacing (b - a)/(n - 1))."""
+    from .c05 import subst
+    S, Ncount = sym('S'), sym('N')
+    out = {}
+    for fn in ('ft_coord', 'ift_coord'):
+        q = FOURIER + '.' + fn
+        fd = prog.func(q)
+        c = sym(fd.args.args[0].arg)
+        it = Interp(prog, max_depth=1, opaque=[FOURIER + '.get_spacing'])
+        res = it.analyze(q)
+        v = res.ret
+        ok = v[0] == 'call' and v[1] == 'numpy.linspace' and len(v[2]) == 3 and not v[3]
+        if not ok:
+            check.bad('B-spacing-round-trip', fn, 'does not return np.linspace(lo, hi, '
+                      'n): %s' % show(v)[:120], prog.loc(q, fd))
+            return
+        m = {intern(('call', FOURIER + '.get_spacing', (c,), ())): S,
+             intern(('call', 'len', (c,), ())): Ncount}
+        lo, hi, n = [subst(a, m) for a in v[2]]
+        if any(x == c for t in (lo, hi, n) for x in subterms(t)):
+            # a transform that also uses the coordinate's origin is outside this
+            # rule's algebra (clause B is the statement about the origin)
+            check.note('spacing round trip not evaluated', fn + ' reads the '
+                       'coordinate values themselves')
+            return
+        out[fn] = (lo, hi, n, prog.loc(q, fd))
+    ok_n = out['ft_coord'][2] == Ncount and out['ift_coord'][2] == Ncount
+    check.require(ok_n, 'B-spacing-round-trip', 'number of points',
+                  'both transforms return as many points as they receive',
+                  out['ft_coord'][3])
+    lo, hi, n, loc = out['ft_coord']
+    s1 = intern(('bin', '/', ('bin', '-', hi, lo), ('bin', '-', Ncount, num(1))))
+    lo2, hi2, n2, loc2 = out['ift_coord']
+    s2 = intern(('bin', '/', ('bin', '-', subst(hi2, {S: s1}), subst(lo2, {S: s1})),
+                 ('bin', '-', Ncount, num(1))))
+    check.require(canon.equal(s2, S), 'B-spacing-round-trip', 'ift_coord(ft_coord(c))',
+                  'the pixel spacing survives the round trip: with spacing s and n '
+                  'points, ft_coord has spacing 1/(s(n-1)) and ift_coord of that has '
+                  'spacing s', loc2,
+                  fail_detail='the round trip returns spacing %s for an input spacing S'
+                  % canon.show(s2)[:160])
+    check.require(canon.is_zero(lo2), 'B-spacing-round-trip', 'ift_coord origin',
+                  'the restored coordinate starts at 0', loc2)
+    # the frequency axis is centred: lo = -hi
+    check.require(canon.equal(lo, intern(('un', '-', hi))), 'B-spacing-round-trip',
+                  'ft_coord symmetric', 'frequencies run from -f to +f', loc)
+
+
+def clause_A2(check, prog):
+    """transform_metadata: forward renames x->m, y->n and uses the forward
+    coordinate transform; inverse renames m->x, n->y and uses the inverse one;
+    attrs and name are carried over."""
+    from hpstatic.logic import select
+    q = FOURIER + '.transform_metadata'
+    fd = prog.func(q)
+    loc = prog.loc(q, fd)
+    a, inv = [sym(x.arg) for x in fd.args.args[:2]]
+    it = Interp(prog, max_depth=1, opaque=[FOURIER + '.ft_coords',
+                                           FOURIER + '.ift_coords'])
+    res = it.analyze(q)
+    v = res.ret
+    ok = v[0] == 'dict'
+    d = {k[1]: x for k, x in v[1] if k[0] == 'const'} if ok else {}
+    ok = ok and set(d) == {'dims', 'coords', 'attrs', 'name'} and \
+        d['attrs'] == ('attr', a, 'attrs') and d['name'] == ('attr', a, 'name')
+    detail = 'returns %s' % show(v)[:160]
+    for inverse, ren, cf in ((False, {'x': 'm', 'y': 'n'}, FOURIER + '.ft_coords'),
+                             (True, {'m': 'x', 'n': 'y'}, FOURIER + '.ift_coords')):
+        if not ok:
+            break
+        hyp = lambda t, inverse=inverse: inverse if t == inv else None
+        dims = select(d['dims'], hyp)
+        co = select(d['coords'], hyp)
+        if dims is None or co is None:
+            ok, detail = False, 'not decided by `inverse`'
+            break
+        got = {}
+        t = dims
+        while t[0] == 'upd' and t[2] == 'item':
+            key, val = t[3], t[4]
+            if key[0] == 'call' and isinstance(key[1], tuple) and key[1][2] == 'index' \
+                    and key[2] and key[2][0][0] == 'const' and val[0] == 'const':
+                got[key[2][0][1]] = val[1]
+            t = t[1]
+        base_ok = t == ('call', 'list', (('attr', a, 'dims'),), ())
+        if got != ren or not base_ok or co != ('call', cf, (('attr', a, 'coords'),), ()):
+            ok = False
+            detail = 'inverse=%s: renames %s, coordinates %s' % (
+                inverse, got, show(co)[:80])
+    check.require(ok, 'A-axis-renaming', 'transform_metadata per direction',
+                  'forward: x->m, y->n with ft_coords; inverse: m->x, n->y with '
+                  'ift_coords; attrs and name kept', loc, fail_detail=detail)
+
+
 def clause_C(check, prog):
     q = PROP + '.propagate'
     fd = prog.func(q)
@@ -230,11 +333,29 @@ def clause_C(check, prog):
     outs = res.returns
     # 1. d == 0 shortcut returns the input object itself
     first = outs[0]
-    cond_txt = ' and '.join(show(t) for t, p in first.cond)
-    ok = first.value == sym('data') and 'd == 0' in cond_txt.replace('(', '').replace(')', '')
+    cond_txt = ' and '.join(('' if p else 'not ') + show(t) for t, p in first.cond)
+    dd = sym('d')
+    scal = intern(('call', 'numpy.isscalar', (dd,), ()))
+    zero = intern(('cmp', '==', dd, num(0)))
+    ok = first.value == sym('data') and len(first.cond) == 1 and first.cond[0][1] and \
+        first.cond[0][0][0] == 'bool' and first.cond[0][0][1] == 'and' and \
+        set(first.cond[0][0][2]) == {scal, zero}
     check.require(ok, 'C-zero-distance-identity', 'propagate',
                   'returns data unchanged when d is the scalar 0', loc,
                   fail_detail='first return is %s under %s' % (show(first.value), cond_txt))
+    mp = [o for o in res.raises if 'MissingParameter' in show(o.value)]
+    okm = len(mp) == 1 and len(res.raises) == 1
+    if okm:
+        cs = [(t, p) for t, p in mp[0].cond if not (t[0] == 'bool' and scal in t[2])]
+        okm = len(cs) == 1 and cs[0][1] and cs[0][0][0] == 'bool' and \
+            cs[0][0][1] == 'or' and len(cs[0][0][2]) == 2 and all(
+                x[0] == 'cmp' and x[1] == 'is' and x[3] == NONE and x[2][0] == 'attr'
+                for x in cs[0][0][2]) and \
+            {x[2][2] for x in cs[0][0][2]} == {'medium_index', 'illum_wavelen'}
+    check.require(okm, 'C-refuses-only-missing-optics', 'propagate',
+                  'MissingParameter is raised iff the medium index or the wavelength '
+                  'is unknown', loc, fail_detail='raising paths: %s' % [
+                      [(show(t)[:80], p) for t, p in o.cond] for o in res.raises])
     final = outs[-1].value
     # 2. must pass through copy_metadata(<updated data>, res)
     ok = final[0] == 'call' and final[1] == 'holopy.core.metadata.copy_metadata' \
@@ -305,13 +426,50 @@ def clause_C(check, prog):
                       'reads the image only through its x / y coordinates', loc,
                       fail_detail='trans_func reads schema.%s%s' % (
                           sorted(reads), ' and passes it whole to a call' if bare else ''))
-    # 5. zero inside a list: the input itself is stacked in, along z
-    cc = [c for c in calls_in(body, 'xarray.concat')]
-    ok = any(c[2] and c[2][0][0] == 'list' and donor in c[2][0][1] and
-             kw(c, 'dim') == ('const', 'z') for c in cc)
+    # 5. zero inside a list: the input itself is stacked in, along z -- exactly
+    #    when d is not a scalar and contains a zero, and then the transfer
+    #    function is computed for the non-zero distances only (truth table over
+    #    the two guard atoms)
+    from hpstatic.logic import select
+    import itertools
+    arr = intern(('call', 'numpy.array', (dd,), ()))
+    anyz = [x for x in subterms(body) if x[0] == 'call' and isinstance(x[1], tuple)
+            and x[1][0] == 'attr' and x[1][2] == 'any' and
+            x[1][1][0] == 'cmp' and x[1][1][1] == '==' and x[1][1][3] == num(0) and
+            x[1][1][2] in (arr, dd)]
+    tf = calls_in(body, PROP + '.trans_func')
+    ok = len(anyz) >= 1 and len(tf) >= 1
+    detail = 'no test for zeros in the list of distances'
+    rows = 0
+    if ok:
+        for A, Z in itertools.product((True, False), repeat=2):
+            hyp = lambda t, A=A, Z=Z: A if t == scal else (Z if t in anyz else None)
+            leaf = select(body, hyp)
+            darg = select(tf[0][2][1], hyp) if len(tf[0][2]) > 1 else None
+            if leaf is None or darg is None:
+                ok, detail = False, 'stacking is not decided by (scalar d, zero in d)'
+                break
+            rows += 1
+            stacked = leaf[0] == 'call' and leaf[1] == 'xarray.concat' and leaf[2] and \
+                leaf[2][0][0] == 'list' and len(leaf[2][0][1]) == 2 and \
+                leaf[2][0][1][0] == donor and kw(leaf, 'dim') == ('const', 'z')
+            want_stack = (not A) and Z
+            if want_stack:
+                good = stacked and darg[0] == 'call' and darg[1] == 'numpy.delete' and \
+                    darg[2][0] == arr and bool(calls_in(darg[2][1], 'numpy.nonzero'))
+            else:
+                good = (not stacked) and not calls_in(leaf, 'xarray.concat') and \
+                    darg == (dd if A else arr)
+            if not good:
+                ok = False
+                detail = 'scalar d=%s, zero in d=%s: result %s, distances handed to ' \
+                    'trans_func %s' % (A, Z, show(leaf)[:80], show(darg)[:80])
+                break
     check.require(ok, 'C-zero-in-list', 'propagate',
                   'a zero distance in a list contributes the input image itself '
-                  '(stacked along z)', loc)
+                  '(stacked along z, first) and is removed from the distances that '
+                  'are propagated -- exactly then (%d rows)' % rows, loc,
+                  fail_detail=detail)
     # ... and every slice keeps its own z label: nothing relabels / reorders
     # the stack after the concatenation
     relabel = []
